@@ -49,7 +49,7 @@ func newLive(x *vs.Exec, o liveOpts) *liveClient {
 	so := serveOpts{exitDelay: o.exitDelay, ignoreQuit: o.ignoreQuit, onExit: o.onExit, preLine: o.preLine, stdout: o.pStdout, stderr: o.pStderr, realStdout: o.realStdout}
 	if o.proto == "netrpc" {
 		lc.rp = &tagRPCPlugin{mk: func() *tagRPCServer { return &tagRPCServer{tag: "obj", block: lc.block} }}
-		ps = plugin.PluginSet{"p": lc.rp}
+		ps = plugin.PluginSet{"p": lc.rp, "bad": failingRPCPlugin{}}
 		so.proto = "netrpc"
 	} else {
 		lc.gp = &fullGRPCPlugin{block: lc.block}
@@ -188,11 +188,11 @@ func init() {
 					x.Go("host", func() { lc.call(obj, true) })
 				}
 			}
-			x.Data["lcs"] = lcs
-			x.Data["marker"] = marker
+			x.Put("lcs", lcs)
+			x.Put("marker", marker)
 			x.Release()
 			d := newDone(x)
-			x.Data["d"] = d
+			x.Put("d", d)
 			lc := lcs[0]
 			kill := func(name string) func() {
 				return func() {
@@ -205,9 +205,9 @@ func init() {
 						}()
 						lc.cl.Kill()
 					}()
-					x.Data["dt:"+name] = x.Now() - t0
-					x.Data["exitedAtReturn:"+name] = lc.r.hasExited()
-					x.Data["ExitedAtReturn:"+name] = lc.cl.Exited()
+					x.Put("dt:"+name, x.Now()-t0)
+					x.Put("exitedAtReturn:"+name, lc.r.hasExited())
+					x.Put("ExitedAtReturn:"+name, lc.cl.Exited())
 				}
 			}
 			switch pat {
@@ -226,7 +226,7 @@ func init() {
 				d.goIn("host", "CleanupClients", func() {
 					t0 := x.Now()
 					plugin.CleanupClients()
-					x.Data["dt:CleanupClients"] = x.Now() - t0
+					x.Put("dt:CleanupClients", x.Now()-t0)
 				})
 			}
 		},
